@@ -925,9 +925,10 @@ void __atomic_futex_unsigned_base::_M_futex_notify_all(unsigned* addr) {
 // ===========================================================================
 // __tsan_* entry points: every instrumented access is a scheduling point
 // ===========================================================================
-static inline Task* pre(int kind) {
+static inline Task* pre(int kind, const volatile void* a = nullptr, size_t n = 0) {
     Task* t = self;
     if (!t || t->nosched || !G.active || t->st == T_DEAD) return nullptr;
+    if (G.p_hi && a) poison_check((const void*)a, n, true);
     sched_point(t, kind);
     return t;
 }
@@ -965,18 +966,18 @@ void* __tsan_memmove(void* d, const void* s, size_t n) { plain(s, n, false); pla
 void* __tsan_memset(void* d, int c, size_t n) { plain(d, n, true); return memset(d, c, n); }
 
 #define ATOMICS(N, T) \
-    T __tsan_atomic##N##_load(const volatile T* a, int) { Task* t = pre(K_ATOMIC); T v = __atomic_load_n(a, __ATOMIC_SEQ_CST); if (t) spin_observe(t, a, (uint64_t)v); return v; } \
-    void __tsan_atomic##N##_store(volatile T* a, T v, int) { Task* t = pre(K_ATOMIC); T o = __atomic_exchange_n(a, v, __ATOMIC_SEQ_CST); if (t && o != v) modified(t, a); } \
-    T __tsan_atomic##N##_exchange(volatile T* a, T v, int) { Task* t = pre(K_ATOMIC); T o = __atomic_exchange_n(a, v, __ATOMIC_SEQ_CST); if (t) { if (o != v) modified(t, a); else spin_observe(t, a, (uint64_t)o); } return o; } \
-    T __tsan_atomic##N##_fetch_add(volatile T* a, T v, int) { Task* t = pre(K_ATOMIC); T o = __atomic_fetch_add(a, v, __ATOMIC_SEQ_CST); if (t && v) modified(t, a); return o; } \
-    T __tsan_atomic##N##_fetch_sub(volatile T* a, T v, int) { Task* t = pre(K_ATOMIC); T o = __atomic_fetch_sub(a, v, __ATOMIC_SEQ_CST); if (t && v) modified(t, a); return o; } \
-    T __tsan_atomic##N##_fetch_and(volatile T* a, T v, int) { Task* t = pre(K_ATOMIC); T o = __atomic_fetch_and(a, v, __ATOMIC_SEQ_CST); if (t && (T)(o & v) != o) modified(t, a); return o; } \
-    T __tsan_atomic##N##_fetch_or(volatile T* a, T v, int) { Task* t = pre(K_ATOMIC); T o = __atomic_fetch_or(a, v, __ATOMIC_SEQ_CST); if (t && (T)(o | v) != o) modified(t, a); return o; } \
-    T __tsan_atomic##N##_fetch_xor(volatile T* a, T v, int) { Task* t = pre(K_ATOMIC); T o = __atomic_fetch_xor(a, v, __ATOMIC_SEQ_CST); if (t && v) modified(t, a); return o; } \
-    T __tsan_atomic##N##_fetch_nand(volatile T* a, T v, int) { Task* t = pre(K_ATOMIC); T o = __atomic_fetch_nand(a, v, __ATOMIC_SEQ_CST); if (t) modified(t, a); return o; } \
-    int __tsan_atomic##N##_compare_exchange_strong(volatile T* a, T* c, T v, int, int) { Task* t = pre(K_ATOMIC); T e = *c; bool ok = __atomic_compare_exchange_n(a, c, v, false, __ATOMIC_SEQ_CST, __ATOMIC_SEQ_CST); if (t) { if (ok) { if (e != v) modified(t, a); } else spin_observe(t, a, (uint64_t)*c); } return ok; } \
-    int __tsan_atomic##N##_compare_exchange_weak(volatile T* a, T* c, T v, int, int) { Task* t = pre(K_ATOMIC); T e = *c; bool ok = __atomic_compare_exchange_n(a, c, v, false, __ATOMIC_SEQ_CST, __ATOMIC_SEQ_CST); if (t) { if (ok) { if (e != v) modified(t, a); } else spin_observe(t, a, (uint64_t)*c); } return ok; } \
-    T __tsan_atomic##N##_compare_exchange_val(volatile T* a, T c, T v, int, int) { Task* t = pre(K_ATOMIC); T e = c; bool ok = __atomic_compare_exchange_n(a, &c, v, false, __ATOMIC_SEQ_CST, __ATOMIC_SEQ_CST); if (t) { if (ok) { if (e != v) modified(t, a); } else spin_observe(t, a, (uint64_t)c); } return c; }
+    T __tsan_atomic##N##_load(const volatile T* a, int) { Task* t = pre(K_ATOMIC, a, sizeof(T)); T v = __atomic_load_n(a, __ATOMIC_SEQ_CST); if (t) spin_observe(t, a, (uint64_t)v); return v; } \
+    void __tsan_atomic##N##_store(volatile T* a, T v, int) { Task* t = pre(K_ATOMIC, a, sizeof(T)); T o = __atomic_exchange_n(a, v, __ATOMIC_SEQ_CST); if (t && o != v) modified(t, a); } \
+    T __tsan_atomic##N##_exchange(volatile T* a, T v, int) { Task* t = pre(K_ATOMIC, a, sizeof(T)); T o = __atomic_exchange_n(a, v, __ATOMIC_SEQ_CST); if (t) { if (o != v) modified(t, a); else spin_observe(t, a, (uint64_t)o); } return o; } \
+    T __tsan_atomic##N##_fetch_add(volatile T* a, T v, int) { Task* t = pre(K_ATOMIC, a, sizeof(T)); T o = __atomic_fetch_add(a, v, __ATOMIC_SEQ_CST); if (t && v) modified(t, a); return o; } \
+    T __tsan_atomic##N##_fetch_sub(volatile T* a, T v, int) { Task* t = pre(K_ATOMIC, a, sizeof(T)); T o = __atomic_fetch_sub(a, v, __ATOMIC_SEQ_CST); if (t && v) modified(t, a); return o; } \
+    T __tsan_atomic##N##_fetch_and(volatile T* a, T v, int) { Task* t = pre(K_ATOMIC, a, sizeof(T)); T o = __atomic_fetch_and(a, v, __ATOMIC_SEQ_CST); if (t && (T)(o & v) != o) modified(t, a); return o; } \
+    T __tsan_atomic##N##_fetch_or(volatile T* a, T v, int) { Task* t = pre(K_ATOMIC, a, sizeof(T)); T o = __atomic_fetch_or(a, v, __ATOMIC_SEQ_CST); if (t && (T)(o | v) != o) modified(t, a); return o; } \
+    T __tsan_atomic##N##_fetch_xor(volatile T* a, T v, int) { Task* t = pre(K_ATOMIC, a, sizeof(T)); T o = __atomic_fetch_xor(a, v, __ATOMIC_SEQ_CST); if (t && v) modified(t, a); return o; } \
+    T __tsan_atomic##N##_fetch_nand(volatile T* a, T v, int) { Task* t = pre(K_ATOMIC, a, sizeof(T)); T o = __atomic_fetch_nand(a, v, __ATOMIC_SEQ_CST); if (t) modified(t, a); return o; } \
+    int __tsan_atomic##N##_compare_exchange_strong(volatile T* a, T* c, T v, int, int) { Task* t = pre(K_ATOMIC, a, sizeof(T)); T e = *c; bool ok = __atomic_compare_exchange_n(a, c, v, false, __ATOMIC_SEQ_CST, __ATOMIC_SEQ_CST); if (t) { if (ok) { if (e != v) modified(t, a); } else spin_observe(t, a, (uint64_t)*c); } return ok; } \
+    int __tsan_atomic##N##_compare_exchange_weak(volatile T* a, T* c, T v, int, int) { Task* t = pre(K_ATOMIC, a, sizeof(T)); T e = *c; bool ok = __atomic_compare_exchange_n(a, c, v, false, __ATOMIC_SEQ_CST, __ATOMIC_SEQ_CST); if (t) { if (ok) { if (e != v) modified(t, a); } else spin_observe(t, a, (uint64_t)*c); } return ok; } \
+    T __tsan_atomic##N##_compare_exchange_val(volatile T* a, T c, T v, int, int) { Task* t = pre(K_ATOMIC, a, sizeof(T)); T e = c; bool ok = __atomic_compare_exchange_n(a, &c, v, false, __ATOMIC_SEQ_CST, __ATOMIC_SEQ_CST); if (t) { if (ok) { if (e != v) modified(t, a); } else spin_observe(t, a, (uint64_t)c); } return c; }
 ATOMICS(8, uint8_t) ATOMICS(16, uint16_t) ATOMICS(32, uint32_t) ATOMICS(64, uint64_t)
 void __tsan_atomic_thread_fence(int) { pre(K_ATOMIC); __atomic_thread_fence(__ATOMIC_SEQ_CST); }
 void __tsan_atomic_signal_fence(int) {}
